@@ -89,12 +89,23 @@ def parseCacheLens (s : String) : List (PKey × Nat) :=
       | _ => none
     | _ => none)
 
-/-- parse an op line (connection field dropped); `impl` is the implementation's result line, used
-only for externally resolved nondeterminism (cache lengths). -/
+/-- member ids in the order the implementation lists them: `ok id:name:n:m m1=p+p,m2=p` -/
+def parseMemberOrder (impl : List String) : List Nat :=
+  ((impl.getD 2 "").splitOn ",").filterMap (fun e => ((e.splitOn "=").headD "").toNat?)
+
+/-- `ok client=<id> …` -/
+def parseClientId (impl : List String) : Option Nat :=
+  match (impl.getD 1 "").splitOn "=" with
+  | ["client", n] => n.toNat?
+  | _ => none
+
+/-- parse an op line; `impl` is the implementation's result line, used only for externally resolved
+nondeterminism (cache lengths, client ids, hash-map order of group members). -/
 def parseOp (enc : Nat) (toks : List String) (impl : List String) : Option Op :=
   match toks with
   | ["clock", t] => t.toNat?.map Op.clock
   | ["create-stream", _, id, name] => do pure (Op.createStream (← optNat id) name)
+  | ["update-stream", _, s, name] => do pure (Op.updateStream (← parseIdent s) name)
   | ["delete-stream", _, s] => do pure (Op.deleteStream (← parseIdent s))
   | ["purge-stream", _, s] => do pure (Op.purgeStream (← parseIdent s))
   | ["create-topic", _, s, id, name, n, e, m, r] => do
@@ -106,24 +117,37 @@ def parseOp (enc : Nat) (toks : List String) (impl : List String) : Option Op :=
   | ["purge-topic", _, s, t] => do pure (Op.purgeTopic (← parseIdent s) (← parseIdent t))
   | ["create-parts", _, s, t, n] => do pure (Op.createParts (← parseIdent s) (← parseIdent t) (← n.toNat?))
   | ["delete-parts", _, s, t, n] => do pure (Op.deleteParts (← parseIdent s) (← parseIdent t) (← n.toNat?))
+  | ["create-group", _, s, t, id, name] => do
+      pure (Op.createGroup (← parseIdent s) (← parseIdent t) (← optNat id) name)
+  | ["delete-group", _, s, t, g] => do pure (Op.deleteGroup (← parseIdent s) (← parseIdent t) (← parseIdent g))
+  | ["join", c, s, t, g] => do pure (Op.join (← c.toNat?) (← parseIdent s) (← parseIdent t) (← parseIdent g))
+  | ["leave", c, s, t, g] => do pure (Op.leave (← c.toNat?) (← parseIdent s) (← parseIdent t) (← parseIdent g))
+  | ["group", _, s, t, g] => do
+      pure (Op.groupInfo (← parseIdent s) (← parseIdent t) (← parseIdent g) (parseMemberOrder impl))
+  | ["groups", _, s, t] => do pure (Op.groups (← parseIdent s) (← parseIdent t))
+  | ["me", c] => do pure (Op.me (← c.toNat?) (← parseClientId impl))
+  | ["close", c] => do pure (Op.close (← c.toNat?))
   | ["send", _, s, t, p, ms] => do
       pure (Op.send (← parseIdent s) (← parseIdent t) (← parsePartitioning p) (← parseMsgs enc ms))
-  | ["poll", _, s, t, pid, c, k, n, auto] => do
-      pure (Op.poll (← parseIdent s) (← parseIdent t) (← optNat pid) (← parseConsumer c) (← parseKind k)
+  | ["poll", c, s, t, pid, cons, k, n, auto] => do
+      pure (Op.poll (← c.toNat?) (← parseIdent s) (← parseIdent t) (← optNat pid) (← parseConsumer cons) (← parseKind k)
         (← n.toNat?) (auto == "1"))
   | ["flush", _, s, t, pid, _] => do pure (Op.flush (← parseIdent s) (← parseIdent t) (← pid.toNat?))
-  | ["store-offset", _, s, t, pid, c, o] => do
-      pure (Op.storeOffset (← parseIdent s) (← parseIdent t) (← optNat pid) (← parseConsumer c) (← o.toNat?))
-  | ["get-offset", _, s, t, pid, c] => do
-      pure (Op.getOffset (← parseIdent s) (← parseIdent t) (← optNat pid) (← parseConsumer c))
-  | ["delete-offset", _, s, t, pid, c] => do
-      pure (Op.deleteOffset (← parseIdent s) (← parseIdent t) (← optNat pid) (← parseConsumer c))
+  | ["store-offset", c, s, t, pid, cons, o] => do
+      pure (Op.storeOffset (← c.toNat?) (← parseIdent s) (← parseIdent t) (← optNat pid) (← parseConsumer cons) (← o.toNat?))
+  | ["get-offset", c, s, t, pid, cons] => do
+      pure (Op.getOffset (← c.toNat?) (← parseIdent s) (← parseIdent t) (← optNat pid) (← parseConsumer cons))
+  | ["delete-offset", c, s, t, pid, cons] => do
+      pure (Op.deleteOffset (← c.toNat?) (← parseIdent s) (← parseIdent t) (← optNat pid) (← parseConsumer cons))
   | ["save"] => some .save
   | ["maintain"] => some .maintain
   | ["restart"] => some (.restart (parseCacheLens (impl.getD 1 "")))
   | ["evict", s, t, pid, _] => do
       pure (Op.evict (← parseIdent s) (← parseIdent t) (← pid.toNat?) (← (impl.getD 1 "").toNat?))
   | ["topic", _, s, t] => do pure (Op.topicInfo (← parseIdent s) (← parseIdent t))
+  | ["topics", _, s] => do pure (Op.topics (← parseIdent s))
+  | ["stream", _, s] => do pure (Op.streamInfo (← parseIdent s))
+  | ["streams", _] => some .streams
   | ["stats", _] => some .stats
   | _ => none
 
@@ -147,15 +171,22 @@ def showOut (enc : Nat) : Out → String
   | .topic id name n e m r msgs size parts =>
     (s!"ok {id}:{name}:{n}:{showOptNat "never" e}:{showOptNat "unlimited" m}:{r}:{msgs}:{size} " ++
       ",".intercalate (parts.map (fun p => s!"{p.id}:{p.cur}:{p.msgs}:{p.size}:{p.segs}"))).trimAsciiEnd.toString
-  | .stats st t p sg m sz => s!"ok streams={st} topics={t} partitions={p} segments={sg} messages={m} size={sz}"
+  | .stats st t p sg m sz g => s!"ok streams={st} topics={t} partitions={p} segments={sg} messages={m} size={sz} groups={g}"
+  | .group id name n members =>
+    (s!"ok {id}:{name}:{n}:{members.length} " ++ ",".intercalate (members.map (fun m =>
+      s!"{m.1}=" ++ "+".intercalate (m.2.map toString)))).trimAsciiEnd.toString
+  | .me cid groups =>
+    s!"ok client={cid} groups=" ++ ",".intercalate (groups.map (fun k => s!"{k.1}/{k.2.1}/{k.2.2}"))
+  | .text t => ("ok " ++ t).trimAsciiEnd.toString
   | .none' => "ok none"
 
 /-- canonical form of an implementation result for comparison with the model's text -/
 def canonImpl (toks : List String) (impl : String) : String :=
   match toks with
   | ["stats", _] =>
-    -- the model does not know consumer groups / clients: compare the first six figures
-    " ".intercalate ((impl.splitOn " ").take 7)
+    -- the model does not know the number of connected clients: compare the first seven figures
+    " ".intercalate ((impl.splitOn " ").take 8)
+  | ["me", _] => " ".intercalate ((impl.splitOn " ").take 3)
   | ["restart"] => "ok"
   | "evict" :: _ => "ok"
   | _ => impl
@@ -219,7 +250,8 @@ def resolvePart (y : Sys) (si ti : Ident) (pid : Nat) : Option (PKey × Part) :=
 implementation's answer is not the specification's -/
 def specCheck (st : St) (op : Op) (impl : String) : Option (String × String) :=
   match op with
-  | .poll si ti pid c k count _ =>
+  | .poll _ si ti (some pid0) c k count _ =>
+    let pid : Option Nat := some pid0
     if count = 0 then none else
     match resolvePart st.sys si ti (pid.getD 1) with
     | none => none
@@ -232,7 +264,8 @@ def specCheck (st : St) (op : Op) (impl : String) : Option (String × String) :=
           some ((match k with
             | .offset _ => "poll-offset" | .timestamp _ => "poll-timestamp" | .first => "poll-first"
             | .last => "poll-last" | .next => "poll-next"), exp)
-  | .getOffset si ti pid c =>
+  | .getOffset _ si ti (some pid0) c =>
+    let pid : Option Nat := some pid0
     match resolvePart st.sys si ti (pid.getD 1) with
     | none => none
     | some (key, _) =>
@@ -241,7 +274,8 @@ def specCheck (st : St) (op : Op) (impl : String) : Option (String × String) :=
       | some sp =>
         let exp := showOut st.enc (.offset ((sp.getOffset c.grp c.id).map (fun o => (key.2.2, sp.cur, o))))
         if exp == impl then none else some ("get-offset", exp)
-  | .storeOffset si ti pid c off =>
+  | .storeOffset _ si ti (some pid0) c off =>
+    let pid : Option Nat := some pid0
     match resolvePart st.sys si ti (pid.getD 1) with
     | none => none
     | some (key, _) =>
@@ -293,7 +327,7 @@ def stepLine (st : St) (raw : String) : St × List String :=
     let itxt := canonImpl toks implS
     let cov := bump st.cov ("op:" ++ toks.headD "")
     let cov := match op with
-      | .poll si ti pid _ (.offset o) count _ =>
+      | .poll _ si ti pid _ (.offset o) count _ =>
         (match resolvePart st.sys si ti (pid.getD 1) with
           | some (_, p) => bump cov ("tier:" ++ pollBranch p o count)
           | none => cov)
